@@ -218,6 +218,7 @@ func vrtAssert(fr *frame, c Val, msg string) {
 	switch c := c.(type) {
 	case bool:
 		if c {
+			in.ex.stats.AssertFolded++
 			return
 		}
 		// violated on this path for every value satisfying the path condition
